@@ -222,19 +222,21 @@ pub fn check_hash_tables(c: &HashCase) -> Result<(), String> {
     if let Some((in_gnu, pos, val)) = c.corrupt { let t = if in_gnu { &mut gnu } else { &mut sysv }; let p = pos % t.len(); t[p] ^= val | 1; }
     let syms = elf::symbol::SymbolTable::<AnyEndian>::new(e, class, &symtab);
     let st = elf::string_table::StringTable::new(&strs);
+    let tag = |which: &str| if which == "GNU" { "C11: GNU" } else { "C12: SysV" };
     let check = |which: &str, r: Result<Option<(usize, elf::symbol::Symbol)>, elf::ParseError>, q: &[u8], present: bool| -> Result<(), String> {
         match r {
             Ok(Some((i, s))) => {
-                if i >= nsym || syms.get(i).ok().as_ref() != Some(&s) { return Err(format!("{}: find({:?}) returned index {} / a symbol that is not the table's entry at that index", which, q, i)); }
-                if st.get_raw(s.st_name as usize).ok() != Some(q) { return Err(format!("{}: find({:?}) returned symbol {} whose name is {:?}", which, q, i, st.get_raw(s.st_name as usize).ok())); }
+                if i >= nsym || syms.get(i).ok().as_ref() != Some(&s) { return Err(format!("{}: find({:?}) returned index {} / a symbol that is not the table's entry at that index", tag(which), q, i)); }
+                if st.get_raw(s.st_name as usize).ok() != Some(q) { return Err(format!("{}: find({:?}) returned symbol {} whose name is {:?}", tag(which), q, i, st.get_raw(s.st_name as usize).ok())); }
                 Ok(())
             }
-            Ok(None) => if well_formed && present { Err(format!("{}: a well-formed table (nbucket {}, {} symbols{}) does not find the present name {:?}", which, nb, nsym - 1, if which == "GNU" { format!(", bloom words {}, shift {}", nbloom, c.shift) } else { String::new() }, q)) } else { Ok(()) },
-            Err(x) => if well_formed { Err(format!("{}: lookup of {:?} in a well-formed table is Err({:?})", which, q, x)) } else { Ok(()) },
+            Ok(None) => if well_formed && present { Err(format!("{}: a well-formed table (nbucket {}, {} symbols{}) does not find the present name {:?}", tag(which), nb, nsym - 1, if which == "GNU" { format!(", bloom words {}, shift {}", nbloom, c.shift) } else { String::new() }, q)) } else { Ok(()) },
+            Err(x) => if well_formed { Err(format!("{}: lookup of {:?} in a well-formed table is Err({:?})", tag(which), q, x)) } else { Ok(()) },
         }
     };
     let sysv_t = SysVHashTable::new(e, class, &sysv); let gnu_t = GnuHashTable::new(e, class, &gnu);
-    if well_formed && (sysv_t.is_err() || gnu_t.is_err()) { return Err("a well-formed hash section is rejected by new()".into()); }
+    if well_formed && sysv_t.is_err() { return Err("C12: a well-formed .hash section is rejected by SysVHashTable::new()".into()); }
+    if well_formed && gnu_t.is_err() { return Err("C11: a well-formed .gnu.hash section is rejected by GnuHashTable::new()".into()); }
     for (q, present) in c.names.iter().map(|n| (n, true)).chain(c.absent.iter().filter(|a| !c.names.contains(a)).map(|n| (n, false))) {
         if let Ok(t) = &sysv_t { check("SysV", t.find(q, &syms, &st), q, present)?; }
         if let Ok(t) = &gnu_t { check("GNU", t.find(q, &syms, &st), q, present)?; }
@@ -258,20 +260,29 @@ pub fn enumerate_hash(n: usize, seed: u64) -> Vec<HashCase> {
 // ------------------------------------------------------------------------------------------------ C05 (slice parser)
 /// C05 over one file of the stream family: the header tables are exactly the entries the ELF header (and shdr[0]) declare,
 /// decoded independently here; opening fails iff a present table's entry size is wrong or the declared table does not fit
-pub fn check_c05_file(b: &[u8]) -> Result<(), String> {
-    if b.len() < 64 || b[..4] != [0x7f, b'E', b'L', b'F'] || b[4] != 2 || b[5] != 1 || b[6] != 1 { return Ok(()); }   // the family is ELF64/LE
+pub type Located = Result<Option<(u64, u64)>, ()>;    // Err: opening must fail; Ok(None): table absent; Ok(Some((offset, entries)))
+/// what the ELF header (and shdr[0]) of an ELF64/LE file declare about its two header tables, decoded independently
+pub fn c05_expect(b: &[u8]) -> Option<(Located, Located)> {
+    if b.len() < 64 || b[..4] != [0x7f, b'E', b'L', b'F'] || b[4] != 2 || b[5] != 1 || b[6] != 1 { return None; }   // the family is ELF64/LE
     let u16a = |o: usize| u16::from_le_bytes([b[o], b[o + 1]]) as u64; let u32a = |o: usize| u32::from_le_bytes([b[o], b[o + 1], b[o + 2], b[o + 3]]) as u64;
     let u64a = |o: usize| u64::from_le_bytes([b[o], b[o + 1], b[o + 2], b[o + 3], b[o + 4], b[o + 5], b[o + 6], b[o + 7]]);
     let (phoff, shoff, phentsize, phnum, shentsize, shnum) = (u64a(32), u64a(40), u16a(54), u16a(56), u16a(58), u16a(60));
     let fits = |off: u64, n: u64, sz: u64| n.checked_mul(sz).and_then(|t| off.checked_add(t)).map_or(false, |e| e <= b.len() as u64);
-    // expected outcome per the property
     let shdr0_ok = shoff != 0 && fits(shoff, 1, 64);
-    let want_sh: Result<Option<(u64, u64)>, ()> = if shoff == 0 { Ok(None) } else {
+    let want_sh: Located = if shoff == 0 { Ok(None) } else {
         let n = if shnum == 0 { if !shdr0_ok { Err(()) } else { Ok(u64a(shoff as usize + 32)) } } else { Ok(shnum) };
         match n { Err(()) => Err(()), Ok(n) => if shentsize != 64 || !fits(shoff, n, 64) { Err(()) } else { Ok(Some((shoff, n))) } } };
-    let want_ph: Result<Option<(u64, u64)>, ()> = if phoff == 0 { Ok(None) } else {
+    let want_ph: Located = if phoff == 0 { Ok(None) } else {
         let n = if phnum == 0xffff { if !fits(shoff, 1, 64) { Err(()) } else { Ok(u32a(shoff as usize + 44)) } } else { Ok(phnum) };
         match n { Err(()) => Err(()), Ok(n) => if phentsize != 56 || !fits(phoff, n, 56) { Err(()) } else { Ok(Some((phoff, n))) } } };
+    Some((want_sh, want_ph))
+}
+pub fn check_c05_file(b: &[u8]) -> Result<(), String> {
+    let (want_sh, want_ph) = match c05_expect(b) { Some(x) => x, None => return Ok(()) };
+    let u32a = |o: usize| u32::from_le_bytes([b[o], b[o + 1], b[o + 2], b[o + 3]]) as u64;
+    let u64a = |o: usize| u64::from_le_bytes([b[o], b[o + 1], b[o + 2], b[o + 3], b[o + 4], b[o + 5], b[o + 6], b[o + 7]]);
+    let u16a = |o: usize| u16::from_le_bytes([b[o], b[o + 1]]) as u64;
+    let (phoff, shoff, phentsize, phnum, shentsize, shnum) = (u64a(32), u64a(40), u16a(54), u16a(56), u16a(58), u16a(60));
     let r = ElfBytes::<AnyEndian>::minimal_parse(b);
     match (&r, &want_sh, &want_ph) {
         (Ok(e), Ok(sh), Ok(ph)) => {
